@@ -422,8 +422,15 @@ lemma dotsInNonNeg(t string, n nat)
   induction on n
   ensures 0 <= dotsIn(t, n) && dotsIn(t, n) <= n
 
+// full v6 reverse address text: 32 groups "h." (the suffix is the caller's business)
 func ipv6FromReversed
   requires len(arpa) == arpaV6MaxLen
+  ensures accepts: err == nil <==> (forall j in 0..32: isHex(arpa[2 * j]) && arpa[2 * j + 1] == '.')
+  ensures address: err == nil ==> addrValid(addr) && !addrIs4(addr) && !addrZoned(addr) &&
+    (forall i in 0..16: addrByte(addr, i) == v6NetByte(arpa, i, 32))
+  loop 0
+    invariant scanned: forall j in 0..rangeindex + 1: isHex(arpa[4 * j]) && isHex(arpa[4 * j + 2]) && arpa[4 * j + 1] == '.' && arpa[4 * j + 3] == '.'
+    invariant bytes: forall i in 15 - rangeindex..16: ip[i] == hexval(arpa[62 - 4 * i]) * 16 + hexval(arpa[60 - 4 * i])
 
 // one label is peeled off: the text up to the last dot has one dot less
 lemma dotsInStep(t string, p int, m int)
@@ -449,7 +456,6 @@ spec fn v4NetOK(t string) bool =
 
 func ipv4NetFromReversed
   requires safe_labels: dotsIn(arpa, len(arpa)) <= 3
-  requires no_leading_dot: len(arpa) == 0 || arpa[0] != '.'
   // every label that is accepted (and counted in l) is a canonical decimal
   // octet, and the byte stored for it is its value
   check_at_store l canonical_octet: octetLabel(addr[octetIdx:])
@@ -483,11 +489,18 @@ func ipv6NetFromReversed
     invariant bytes: forall i in 0..16: ip[i] == v6NetByte(arpa, i, l)
     decreases nibbleIdx + 2
 
+func ipv4FromReversed
+  ensures accepts: err == nil <==> isIPv4Text(arpa)
+  ensures address: err == nil ==> addrIs4(addr) && !addrZoned(addr) && (forall i in 0..4: addrByte(addr, 12 + i) == v4LabelVal(arpa, i))
+
 func subnetFromReversedV4
   requires hasSuffix(arpa, "in-addr.arpa")
 
 func subnetFromReversedV6
   requires hasSuffix(arpa, "ip6.arpa")
+  ensures accepts: err == nil <==> (len(arpa) <= arpaV6MaxLen && v6NetOK(arpa))
+  ensures bits: err == nil ==> prefBits(subnet) == 4 * ((len(arpa) - 8) / 2) && addrValid(prefAddr(subnet)) && !addrIs4(prefAddr(subnet))
+  ensures address: err == nil ==> (forall i in 0..16: addrByte(prefAddr(subnet), i) == v6NetByte(arpa, i, (len(arpa) - 8) / 2))
 
 func indexFirstV4Label
   requires hasSuffix(domain, "in-addr.arpa")
@@ -496,15 +509,47 @@ func indexFirstV4Label
     invariant safe_range: 0 <= idx && idx <= len(domain) - 12
     decreases idx
 
+// hexRun(t, idx): every label of t[idx : len(t)-8] is one hex digit, idx is label-aligned
+spec fn hexRun(t string, idx int) bool =
+  0 <= idx && idx <= len(t) - 8 && (len(t) - 8 - idx) % 2 == 0 &&
+  (forall p in idx..len(t) - 8: (p - idx) % 2 == 0 ==> isHex(t[p]) && t[p + 1] == '.')
+
 func indexFirstV6Label
   requires hasSuffix(domain, "ip6.arpa")
+  requires aligned: len(domain) == 8 || domain[len(domain) - 9] == '.'
   ensures safe_range: 0 <= idx && idx <= len(domain) - 8
+  ensures run: hexRun(domain, idx) && (idx == 0 || domain[idx - 1] == '.')
+  ensures at_most_32: (len(domain) - 8 - idx) / 2 <= 32
+  ensures longest: idx >= 2 && (len(domain) - 8 - idx) / 2 < 32 ==> !(isHex(domain[idx - 2]) && (idx == 2 || domain[idx - 3] == '.'))
   loop 0
     invariant safe_range: 0 <= idx && idx <= len(domain) - 8
+    invariant run: hexRun(domain, idx) && (idx == 0 || domain[idx - 1] == '.') && idx == len(domain) - 8 - 2 * labelsNum && 0 <= labelsNum && labelsNum <= 32
     decreases idx
 
 func IPToReversedAddr
   loop 0
     invariant safe_index: -1 <= i && i < len(ip)
     decreases i + 1
+
+// ---------------------------------------------------------------------------
+// IPFromReversedAddr (property C04, soundness): whatever is accepted equals,
+// ASCII-case-insensitively and modulo one trailing dot, the canonical PTR
+// name of the address that is returned.
+
+spec fn trimDot(s string) string = hasSuffix(s, ".") ? s[:len(s) - 1] : s
+  inline
+// the last n bytes of t equal suf up to ASCII letter case
+spec fn suffixCI(t string, suf string) bool =
+  len(t) >= len(suf) && (forall i in 0..len(suf): lowerByte(t[len(t) - len(suf) + i]) == suf[i])
+
+func IPFromReversedAddr
+  ensures typed_error: err != nil ==> typeis(err, "*AddrError")
+  ensures valid_name: err == nil ==> domainNameOK(trimDot(old(arpa)))
+  ensures v6_exact: err == nil && !addrIs4(addr) ==>
+    (let t = trimDot(old(arpa)) in
+     len(t) == 72 && suffixCI(t, ".ip6.arpa") &&
+     (forall j in 0..32: isHex(t[2 * j]) && t[2 * j + 1] == '.') &&
+     (forall i in 0..16: addrByte(addr, i) == hexval(t[62 - 4 * i]) * 16 + hexval(t[60 - 4 * i])))
+  ensures v4_suffix: err == nil && addrIs4(addr) ==>
+    (let t = trimDot(old(arpa)) in len(t) >= 13 && suffixCI(t, ".in-addr.arpa"))
 @*/
